@@ -19,7 +19,7 @@ var c03Sanctioned = map[string][]string{
 	"extractor/filesystem/language/golang/gomod.extractFromSum": {
 		"!bufio.Scanner.Scan(bufio.NewScanner(*ssa.ChangeInterface))",
 		"3:int != builtin.len(strings.Fields(bufio.Scanner.Text(bufio.NewScanner(…))))",
-		"\"\":string == bufio.Scanner.Text(bufio.NewScanner(*ssa.ChangeInterface))",
+		"builtin.len(bufio.Scanner.Text(bufio.NewScanner(*ssa.ChangeInterface))) == 0",
 		"strings.Contains(strings.TrimPrefix(…[…],\"v\":string),\"/go.mod\":string)",
 	},
 	"extractor/filesystem/language/java/gradlelockfile.Extractor.Extract": {
@@ -33,7 +33,7 @@ var c03Sanctioned = map[string][]string{
 	"extractor/filesystem/language/python/pipfilelock.addPkgDetails": {
 		"!next(range(param1))#0",
 		"!strings.HasPrefix(local:*pipfilelock.pipenvPackage.Version,\"==\":string)",
-		"\"\":string == local:*pipfilelock.pipenvPackage.Version",
+		"builtin.len(local:*pipfilelock.pipenvPackage.Version) == 0",
 		"builtin.len(local:*pipfilelock.pipenvPackage.Version) < 3:int",
 		"param0[((…+…)+…[:])]#1",
 	},
@@ -41,22 +41,22 @@ var c03Sanctioned = map[string][]string{
 		"builtin.len(….Packages) <= (φ:int+1:int)",
 	},
 	"extractor/filesystem/language/python/requirements.extractFromExtraPaths": {
-		"builtin.len(φ:requirements.pathQueue) <= 0:int",
+		"builtin.len(φ:requirements.pathQueue) == 0",
 		"extractor/filesystem/language/python/requirements.openAndExtractFromFile(…[…],param2)#2 != nil:error",
 		"make(map)[…[…]]#1",
 	},
 	"extractor/filesystem/language/python/requirements.extractFromPath": {
 		"!bufio.Scanner.Scan(bufio.NewScanner(param0))",
 		"!extractor/filesystem/language/python/requirements.isValidPackage(extractor/filesystem/language/python/requirements.getLowestVersion(extractor/filesystem/language/python/requirements.removeExtras(…))#0)",
-		"0:int == builtin.len(extractor/filesystem/language/python/requirements.removeExtras(extractor/filesystem/language/python/requirements.ignorePythonSpecifier(extractor/filesystem/language/python/requirements.removeWhiteSpaces(…))))",
-		"\"\":string != extractor/filesystem/language/python/requirements.getLowestVersion(extractor/filesystem/language/python/requirements.removeExtras(extractor/filesystem/language/python/requirements.ignorePythonSpecifier(…)))#2",
-		"\"\":string == extractor/filesystem/language/python/requirements.getLowestVersion(extractor/filesystem/language/python/requirements.removeExtras(extractor/filesystem/language/python/requirements.ignorePythonSpecifier(…)))#0",
+		"builtin.len(extractor/filesystem/language/python/requirements.removeExtras(extractor/filesystem/language/python/requirements.ignorePythonSpecifier(extractor/filesystem/language/python/requirements.removeWhiteSpaces(…)))) == 0",
+		"builtin.len(extractor/filesystem/language/python/requirements.getLowestVersion(extractor/filesystem/language/python/requirements.removeExtras(extractor/filesystem/language/python/requirements.ignorePythonSpecifier(…)))#1) == 0 && builtin.len(extractor/filesystem/language/python/requirements.getLowestVersion(extractor/filesystem/language/python/requirements.removeExtras(extractor/filesystem/language/python/requirements.ignorePythonSpecifier(…)))#2) != 0",
+		"builtin.len(extractor/filesystem/language/python/requirements.getLowestVersion(extractor/filesystem/language/python/requirements.removeExtras(extractor/filesystem/language/python/requirements.ignorePythonSpecifier(…)))#0) == 0",
 		"strings.HasPrefix(extractor/filesystem/language/python/requirements.removeExtras(extractor/filesystem/language/python/requirements.ignorePythonSpecifier(extractor/filesystem/language/python/requirements.removeWhiteSpaces(…))),\"-\":string)",
 	},
 	"extractor/filesystem/language/ruby/gemfilelock.Extractor.Extract": {
 		"!slices.Contains(\"GIT\":string,\"GEM\":string,\"PATH\":string,\"PLUGIN SOURCE\":string,….name)",
-		"\"\":string == regexp.Regexp.FindStringSubmatch(…,…)[1:int]",
-		"\"\":string == regexp.Regexp.FindStringSubmatch(…,…)[2:int]",
+		"builtin.len(regexp.Regexp.FindStringSubmatch(…,…)[1:int]) == 0",
+		"builtin.len(regexp.Regexp.FindStringSubmatch(…,…)[2:int]) == 0",
 		"builtin.len(extractor/filesystem/language/ruby/gemfilelock.parseLockfileSections(param2)#0) <= (φ:int+1:int)",
 		"builtin.len(regexp.Regexp.FindStringSubmatch(nameVersionRegexp,…[…])) < 3:int",
 		"builtin.len(….specs) <= (φ:int+1:int)",
@@ -66,9 +66,9 @@ var c03Sanctioned = map[string][]string{
 		"builtin.len(….Packages) <= (φ:int+1:int)",
 	},
 	"extractor/filesystem/os/apk.Extractor.extractFromInput": {
-		"0:int == builtin.len(extractor/filesystem/os/apk.parseSingleApkRecord(bufio.NewScanner(…))#0)",
-		"\"\":string == local:*extractor.Package.Name",
-		"\"\":string == local:*extractor.Package.Version",
+		"builtin.len(extractor/filesystem/os/apk.parseSingleApkRecord(bufio.NewScanner(…))#0) == 0",
+		"builtin.len(local:*extractor.Package.Name) == 0",
+		"builtin.len(local:*extractor.Package.Version) == 0",
 		"context.Context.Err(param1) != nil:error",
 		"extractor/filesystem/os/apk.parseSingleApkRecord(bufio.NewScanner(…))#1 != nil:error",
 		"false:bool",
@@ -76,10 +76,10 @@ var c03Sanctioned = map[string][]string{
 	"extractor/filesystem/os/dpkg.Extractor.extractFromInput": {
 		"!errors.Is(net/textproto.Reader.ReadMIMEHeader(net/textproto.NewReader(…))#1,EOF)",
 		"!extractor/filesystem/os/dpkg.statusInstalled(net/textproto.MIMEHeader.Get(…#0,\"Status\":string))#0",
-		"0:int == builtin.len(net/textproto.Reader.ReadMIMEHeader(net/textproto.NewReader(…))#0)",
-		"\"\":string == net/textproto.MIMEHeader.Get(net/textproto.Reader.ReadMIMEHeader(net/textproto.NewReader(…))#0,\"Package\":string)",
-		"\"\":string == net/textproto.MIMEHeader.Get(net/textproto.Reader.ReadMIMEHeader(net/textproto.NewReader(…))#0,\"Status\":string)",
-		"\"\":string == net/textproto.MIMEHeader.Get(net/textproto.Reader.ReadMIMEHeader(net/textproto.NewReader(…))#0,\"Version\":string)",
+		"builtin.len(net/textproto.Reader.ReadMIMEHeader(net/textproto.NewReader(…))#0) == 0",
+		"builtin.len(net/textproto.MIMEHeader.Get(net/textproto.Reader.ReadMIMEHeader(net/textproto.NewReader(…))#0,\"Package\":string)) == 0",
+		"builtin.len(net/textproto.MIMEHeader.Get(net/textproto.Reader.ReadMIMEHeader(net/textproto.NewReader(…))#0,\"Status\":string)) == 0",
+		"builtin.len(net/textproto.MIMEHeader.Get(net/textproto.Reader.ReadMIMEHeader(net/textproto.NewReader(…))#0,\"Version\":string)) == 0",
 		"context.Context.Err(param1) != nil:error",
 		"extractor/filesystem/os/dpkg.parseSourceNameVersion(net/textproto.MIMEHeader.Get(…#0,\"Source\":string))#2 != nil:error",
 		"extractor/filesystem/os/dpkg.statusInstalled(net/textproto.MIMEHeader.Get(…#0,\"Status\":string))#1 != nil:error",
